@@ -25,7 +25,7 @@ Print Assumptions C19_recv_error_credits_nothing.
    changed: + amount of that pair's ERC-20 *)
 Theorem C19_recv_hex_credits_exactly_as_erc20 :
   forall isender p s s',
-  recv isender p s = (s', true) -> ip_denom p <> DFx -> 0 <= ip_recv p -> 0 <= ip_dst p ->
+  recv isender p s = (s', true) -> ip_denom p <> DFx -> 0 <= ip_recv p -> 0 <= ip_dst p -> memo_untouched isender p ->
   exists t, (ip_denom p = DOwn t \/ ip_denom p = DBase t) /\ ip_hex p = true /\ ip_addr_ok p = true /\ 0 < ip_amt p /\
     ibal s' (ip_recv p, AErc, t) = ibal s (ip_recv p, AErc, t) + ip_amt p /\
     (forall k a, (k, a) <> (AErc, t) -> ibal s' (ip_recv p, k, a) = ibal s (ip_recv p, k, a)).
@@ -35,7 +35,7 @@ Print Assumptions C19_recv_hex_credits_exactly_as_erc20.
 (* the receive-side rule as a table over (denom class, receiver class) — recv_rule_of — and what success means per cell *)
 Theorem C19_recv_rule_table :
   forall isender p s s',
-  recv isender p s = (s', true) -> 0 <= ip_recv p -> 0 <= ip_dst p ->
+  recv isender p s = (s', true) -> 0 <= ip_recv p -> 0 <= ip_dst p -> memo_untouched isender p ->
   match recv_rule_of (ip_denom p) (ip_hex p) with
   | RKeepNative => ibal s' (ip_recv p, AFx, 0) = ibal s (ip_recv p, AFx, 0) + ip_amt p /\
                    (forall k a, (k, a) <> (AFx, 0) -> ibal s' (ip_recv p, k, a) = ibal s (ip_recv p, k, a))
@@ -48,11 +48,32 @@ Print Assumptions C19_recv_rule_table.
 (* reading of "as ERC-20": the native coin arriving over IBC stays the native (EVM) balance — exactly the amount *)
 Theorem C19_recv_native_fx_credits_exactly :
   forall isender p s s',
-  recv isender p s = (s', true) -> ip_denom p = DFx -> 0 <= ip_recv p -> 0 <= ip_dst p ->
+  recv isender p s = (s', true) -> ip_denom p = DFx -> 0 <= ip_recv p -> 0 <= ip_dst p -> memo_untouched isender p ->
   0 < ip_amt p /\ ibal s' (ip_recv p, AFx, 0) = ibal s (ip_recv p, AFx, 0) + ip_amt p /\
   (forall k a, (k, a) <> (AFx, 0) -> ibal s' (ip_recv p, k, a) = ibal s (ip_recv p, k, a)).
 Proof. exact recv_success_fx. Qed.
 Print Assumptions C19_recv_native_fx_credits_exactly.
+
+(* (memo_untouched: the memo carries no value, or the receiver is neither the derived sender nor the callee — only then could the
+   memo call itself move the receiver's coins) *)
+
+(* a receiver the bank refuses to credit (module account, blocked address) is refused for every coin: error acknowledgement,
+   nothing changes *)
+Theorem C19_recv_blocked_receiver_refused :
+  forall isender p s s' ok, recv isender p s = (s', ok) -> ip_recv p = BlockedAddr -> ok = false /\ s' = s.
+Proof. exact recv_blocked_refused. Qed.
+Print Assumptions C19_recv_blocked_receiver_refused.
+
+(* a memo call with value runs only if the derived sender has an account and holds the value; it is the derived sender that
+   pays the callee *)
+Theorem C19_memo_value_paid_by_derived_sender :
+  forall isender p s1 c2 f v,
+  ip_memo p = MemoCall f v -> memo_step isender p s1 = Ok c2 ->
+  let from := isender (ip_src p) (ip_sender p) in
+  has_acct s1 from = true /\ v <= ibal s1 (from, AFx, 0) /\ f = false /\
+  forall k, ibal c2 k = ladd (ladd (ibal s1) (from, AFx, 0) (- v)) (Callee, AFx, 0) v k.
+Proof. exact memo_value_paid_by_derived_sender. Qed.
+Print Assumptions C19_memo_value_paid_by_derived_sender.
 
 Theorem C19_recv_bech32_nonnative_refused :
   forall isender p s s' ok, recv isender p s = (s', ok) -> ip_denom p <> DFx -> ip_hex p = false -> ok = false.
@@ -139,10 +160,10 @@ Theorem C19_nonvacuous :
    ibal s (0, AErc, 0) = 470 /\ rel s = [] /\ commits s = [] /\ count (is_reconv 0 1) (ilog s) = 0%nat /\ ibal s (0, ACoin, 0) = 30) /\
   (let s := run ex_isender [SendFromEvm 0 0 (DAlias 0) 30; Timeout 0 1; TimeoutRaw 0 1; AckRaw 0 1 false] ex_state in
    ibal s (0, AErc, 0) = 500 /\ rel s = [] /\ count (is_reconv 0 1) (ilog s) = 1%nat /\ ibal s (0, ACoin, 0) = 60) /\
-  (let p := {| ip_src := 7; ip_dst := 0; ip_sender := 0; ip_denom := DOwn 10; ip_amt := 25; ip_addr_ok := true; ip_hex := true; ip_recv := 2; ip_memo := MemoCall false |} in
+  (let p := {| ip_src := 7; ip_dst := 0; ip_sender := 0; ip_denom := DOwn 10; ip_amt := 25; ip_addr_ok := true; ip_hex := true; ip_recv := 2; ip_memo := MemoCall false 0 |} in
    let (s, ok) := recv ex_isender p ex_state in
    ok = true /\ ibal s (2, AErc, 10) = 25 /\ ibal s (2, ACoin, 10) = 0 /\ ilog s = [EvCredit 2 10 25; EvCall 1700]) /\
-  (let p := {| ip_src := 7; ip_dst := 0; ip_sender := 0; ip_denom := DOwn 10; ip_amt := 25; ip_addr_ok := true; ip_hex := true; ip_recv := 2; ip_memo := MemoCall true |} in
+  (let p := {| ip_src := 7; ip_dst := 0; ip_sender := 0; ip_denom := DOwn 10; ip_amt := 25; ip_addr_ok := true; ip_hex := true; ip_recv := 2; ip_memo := MemoCall true 0 |} in
    snd (recv ex_isender p ex_state) = false) /\
   (let p := {| ip_src := 7; ip_dst := 0; ip_sender := 0; ip_denom := DAlias 0; ip_amt := 25; ip_addr_ok := true; ip_hex := true; ip_recv := 2; ip_memo := NoMemo |} in
    snd (recv ex_isender p ex_state) = false) /\
